@@ -488,15 +488,16 @@ func (t *tracer) TransitionEnd(tx *am.Transition) {
 		}
 
 		// activated & deactivated
+		// (compared with the previous record, like the other backends)
 		if isActive &&
 			(m.lastRec == nil ||
-				m.lastRec.cacheMTimeTracked[hIdx] != mTimeTracked[hIdx]) {
+				!am.IsActiveTick(m.lastRec.cacheMTimeTracked[hIdx])) {
 
 			tickRec.Activated = true
 		}
 		if !isActive &&
-			m.lastRec != nil &&
-			(m.lastRec.cacheMTimeTracked[hIdx] != mTimeTracked[hIdx]) {
+			(m.lastRec == nil ||
+				am.IsActiveTick(m.lastRec.cacheMTimeTracked[hIdx])) {
 
 			tickRec.Deactivated = true
 		}
